@@ -435,7 +435,7 @@ func mustJSON(x interface{}) json.RawMessage {
 
 func TestC11(t *testing.T) {
 	core.Run(t, "C11",
-		"operation mixes: 4-32 goroutines (on all, 2 or 4 Ps) x 5-25 operations (GetTemplate+Execute of pool templates incl. failing ones and fixed templates ranging over slices/maps/arrays/ints()/slice() and over channels made for the execution, dump(names) compared and dump() / dump(1) executed but not compared, accessing fields of a reflect.StructOf type created for the case, yields, includes, extends, try (also nested and around yields / ranges); GetTemplate; Set.Parse incl. unparsable source; AddGlobal / LookupGlobal on unrelated keys or rewriting the same value; InMemLoader Set (identical content or unrelated files) / Delete (unrelated files)) on one fresh Set (development mode on/off), barrier start, repeated 1-3 times; binary built with -race and halt_on_error; every concurrent Execute compared with the same call alone on a private identically built Set; every global added by some goroutine must be there when all have finished; a mix that has not finished after 30 s is a deadlock if every goroutine inside the engine waits for a lock in two identical goroutine dumps 10 s apart (anything else keeps waiting); non-trivial = >=2 executions of the same template name race for its first load",
+		"operation mixes: 4-32 goroutines (on all, 2 or 4 Ps) x 5-25 operations (GetTemplate+Execute of pool templates incl. failing ones and fixed templates ranging over slices/maps/arrays/ints()/slice() and over channels made for the execution, dump(names) compared and dump() / dump(1) executed but not compared, accessing fields of a reflect.StructOf type created for the case, calling value and pointer methods of one type reached as value / pointer / slice element (compared with the known rendering), yields, includes, extends, try (also nested and around yields / ranges); GetTemplate; Set.Parse incl. unparsable source; AddGlobal / AddGlobalFunc / LookupGlobal on unrelated keys or rewriting the same value; InMemLoader Set (identical content or unrelated files) / Delete (unrelated files)) on one fresh Set (development mode on/off), barrier start, repeated 1-3 times; binary built with -race and halt_on_error; every concurrent Execute compared with the same call alone on a private identically built Set; every global added by some goroutine must be there when all have finished; a mix that has not finished after 30 s is a deadlock if every goroutine inside the engine waits for a lock in two identical goroutine dumps 10 s apart (anything else keeps waiting); non-trivial = >=2 executions of the same template name race for its first load",
 		genC11, judgeC11)
 }
 
